@@ -41,20 +41,36 @@ def run(run):
         env = {}
         t = sy.term(fn["body"], env)
         site = F.loc(fn["body"])
-        fors = [x for x in S.subterms(t) if isinstance(x, tuple) and x and x[0] == "for"]
-        its = [x[2] for x in fors]
-        bad_adapt = [y[1] for it in its for y in S.subterms(it) if is_call(y, EARLY + ("filter", "filter_map", "rev"))]
-        exits = [n for n in T.walk(fn["body"]) if n.get("k") in ("Break", "Continue", "Return") and n.get("ds") != "ForLoop"]
-        over = []
-        for it in its:
-            for y in S.subterms(it):
-                if isinstance(y, tuple) and y and y[0] == "field" and y[2] in ("blocks", "jmps", "subs"):
-                    over.append(y[2])
-        run.check("R1", "%s|complete-iteration" % label, len(fors) >= len(want_loops) and all(w in over for w in want_loops) and not bad_adapt and not exits,
-                  "%s must iterate every %s without filter or early exit (loops over %s, adaptors %s, early exits %d)" % (label, " x ".join(want_loops), over, bad_adapt, len(exits)), site)
+        # the iteration may be written as nested for-loops or as an iterator chain (flat_map / filter_map / collect): what counts
+        # is which containers are iterated, whether anything truncates the iteration, and whether it is left early
+        deep = list(T.walk_deep(F, fn["body"], depth=1))
+        over = set()
+        for y in deep:
+            if y.get("k") == "Call" and y.get("n") in ("iter", "iter_mut", "into_iter", "values", "values_mut") and y.get("a"):
+                for z in T.walk(y["a"][0]):
+                    if z.get("k") == "Field" and z.get("fn") in ("blocks", "jmps", "subs"):
+                        over.add(z["fn"])
+        bad_adapt = sorted({y["n"] for y in deep if T.is_call(y, EARLY + ("rev",)) and not y.get("ds") and not (y["n"] == "next" and y.get("x"))})
+        # filters: a plain `filter` drops elements; filter_map is how a chain expresses `if let .. { push }`
+        filters = sorted({y["n"] for y in deep if T.is_call(y, ("filter",))})
+        exits = [n for n in T.walk(fn["body"]) if n.get("k") in ("Break", "Return") and n.get("ds") != "ForLoop"]
+        key = "%s|complete-iteration" % label
+        missing = [w for w in want_loops if w not in over]
+        if not missing and not bad_adapt and not exits and not filters:
+            run.holds("R1", key, "iterates %s" % sorted(over), site)
+        elif bad_adapt or exits:
+            run.violated("R1", key, "%s must visit every %s; the iteration is truncated (%s%s)" % (label, " x ".join(want_loops), ", ".join(bad_adapt), (", %d early exits" % len(exits)) if exits else ""), site)
+        elif missing and over:
+            run.violated("R1", key, "%s must iterate every %s; it iterates %s only" % (label, " x ".join(want_loops), sorted(over)), site)
+        else:
+            run.undecided("R1", key, "iteration not recognised (over %s, filters %s)" % (sorted(over), filters), site)
         # the match: if let Jmp::Call{target} = jmp.term  and membership test, one push
         pushes = T.paths_to(fn["body"], lambda x: T.is_call(x, "push"))
-        run.check("R1", "%s|one-record-per-call" % label, len(pushes) == 1, "%s must emit exactly one record per matching call (found %d push sites)" % (label, len(pushes)), site)
+        collects = [y for y in T.walk(fn["body"]) if T.is_call(y, "collect")]
+        if len(pushes) == 1 or (not pushes and len(collects) == 1):
+            run.holds("R1", "%s|one-record-per-call" % label, "", site)
+        else:
+            run.undecided("R1", "%s|one-record-per-call" % label, "%d push sites, %d collect calls" % (len(pushes), len(collects)), site)
         if pushes:
             n, conds = pushes[0]
             is_callpat = False
@@ -168,13 +184,24 @@ def run(run):
             run.check("R2", "cwe332|all-pairs", ok, "every configured pair must be examined", site)
         # find_symbol: equality on the full name
         f = F.fn("find_symbol", mod="utils::symbol_utils")
-        ok = False
-        for c in F.closures(f):
+        cmps = []
+        for c in [f] + F.closures(f):
             ct = S.Sym(F).term(c["body"])
             for y in S.subterms(ct):
-                if isinstance(y, tuple) and y and y[0] == "ite" and is_call(y[1], "eq") and any(a[0] == "var" and a[1] == "name" for a in y[1][2]) and any(a[0] == "field" and a[2] == "name" for a in y[1][2]):
-                    ok = True
-        run.check("R2", "find_symbol|name-equality", ok, "find_symbol must select the extern symbol whose name equals the requested name", F.loc(f["body"]))
+                if is_call(y, ("eq", "ne", "starts_with", "ends_with", "contains", "eq_ignore_ascii_case", "cmp")) and len(y[2]) == 2:
+                    sides = [S.value(a) for a in y[2]]
+                    if any(a[0] == "var" and a[1] == "name" for a in sides) and any(a[0] == "field" and a[2] == "name" for a in sides):
+                        cmps.append(y[1])
+                if isinstance(y, tuple) and y and y[0] == "bin" and y[1] in ("Eq", "Ne"):
+                    sides = [S.value(y[2]), S.value(y[3])]
+                    if any(a[0] == "var" and a[1] == "name" for a in sides) and any(a[0] == "field" and a[2] == "name" for a in sides):
+                        cmps.append(y[1].lower())
+        if cmps and all(c_ == "eq" for c_ in cmps):
+            run.holds("R2", "find_symbol|name-equality", "", F.loc(f["body"]))
+        elif cmps:
+            run.violated("R2", "find_symbol|name-equality", "find_symbol must select the extern symbol whose name EQUALS the requested name; it compares them with %s" % sorted(set(cmps)), F.loc(f["body"]))
+        else:
+            run.undecided("R2", "find_symbol|name-equality", "no comparison of the requested name with a symbol name found", F.loc(f["body"]))
         # CWE426
         f = F.fn("check_cwe", mod="checkers::cwe_426")
         sy = S.Sym(F)
@@ -285,6 +312,19 @@ def run(run):
         sy.term(f["body"], env)
         fors = T.for_loops(f["body"])
         ok = any(any(isinstance(y, tuple) and y and y[0] == "field" and y[2] == "symbols" for y in S.subterms(sy.ev(fl[2], env))) and any(T.is_call(x, "find_symbol") for x in T.walk(fl[3])) and any(T.is_call(x, "insert") for x in T.walk(fl[3])) for fl in fors)
-        run.check("R3", "cwe426|configured-symbols", ok, "the privilege-changing functions must be the configured list, looked up among the program's extern symbols", F.loc(f["body"]))
+        if not ok:
+            # iterator-chain form: config.symbols.iter().filter_map(|s| find_symbol(.., s)).collect()
+            for y in T.walk(f["body"]):
+                if T.is_call(y, ("filter_map", "map", "flat_map")) and y.get("a") and any(z.get("k") == "Field" and z.get("fn") == "symbols" for z in T.walk(y["a"][0])):
+                    cl = [T.peel(a) for a in y["a"][1:] if T.peel(a).get("k") == "Closure"]
+                    if any(any(T.is_call(z, "find_symbol") for z in T.walk(F.closure_by_path(c_["d"])["body"])) for c_ in cl):
+                        ok = True
+        lit_only = [x for x in T.walk_deep(F, f["body"], depth=0) if T.is_call(x, "find_symbol")]
+        if ok:
+            run.holds("R3", "cwe426|configured-symbols", "", F.loc(f["body"]))
+        elif lit_only and all(T.peel(x["a"][-1]).get("k") == "Lit" or any(z.get("k") == "Lit" for z in T.walk(x["a"][-1])) for x in lit_only):
+            run.violated("R3", "cwe426|configured-symbols", "the privilege-changing functions must be the configured list; find_symbol is only called with literal names", F.loc(f["body"]))
+        else:
+            run.undecided("R3", "cwe426|configured-symbols", "use of the configured symbol list not recognised", F.loc(f["body"]))
 
     run.guarded("R3", r3)
